@@ -1118,3 +1118,90 @@ Qed.
 (* samples times c: covariance times c^2 (errors times |c|) *)
 Theorem cov_code_scale c X i j : cov_code (mscale c X) i j == c * c * cov_code X i j.
 Proof. unfold cov_code. rewrite sumprod_mscale, length_mscale. ring. Qed.
+
+(* ================================================================== derived containers
+   (.patches[I], .bins[J], +, * scalar before sample_patch_sum / CorrFunc.sample) *)
+Lemma remove_nth_vsel I u k : remove_nth k (vsel I u) = vsel (remove_nth k I) u.
+Proof. unfold vsel. symmetry. apply remove_nth_map. Qed.
+
+(* leaving out the k-th patch of a selection = selecting without the k-th entry of the index list:
+   any index list (any order, repetitions, out of range), any matrix *)
+Theorem del_msel I (M : mat) k : del k (msel I M) = msel (remove_nth k I) M.
+Proof.
+  unfold del, msel. rewrite <- remove_nth_map. rewrite map_map. apply map_ext.
+  intros i. apply remove_nth_vsel.
+Qed.
+
+Theorem loo_msel I (M : mat) k : loo (msel I M) k = total (msel (remove_nth k I) M).
+Proof. unfold loo. rewrite del_msel. reflexivity. Qed.
+
+Lemma length_vsel I u : length (vsel I u) = length I.
+Proof. unfold vsel. apply map_length. Qed.
+
+Lemma msel_square I (M : mat) : square (length I) (msel I M).
+Proof.
+  unfold square, msel. split; [apply map_length|]. apply Forall_forall. intros r Hr.
+  apply in_map_iff in Hr. destruct Hr as [i [<- _]]. apply length_vsel.
+Qed.
+
+(* sample_patch_sum of the selected container: total - row - column + diagonal of the sub-matrix
+   is the total over the selected patches without the k-th selected one *)
+Theorem sample_msel I (M : mat) k :
+  (k < length I)%nat -> sample (msel I M) k == total (msel (remove_nth k I) M).
+Proof.
+  intros Hk. rewrite <- loo_msel. apply (sample_is_loo_square (length I)); [apply msel_square | exact Hk].
+Qed.
+
+(* NormalisedCounts.patches[I], one bin: sample k is the normalised count of the original data
+   restricted to the selection without its k-th entry - counts and both weight vectors alike *)
+Theorem nc_sample_sel_is_recount auto I (M : mat) u v k :
+  (k < length I)%nat ->
+  nc_sample_sel auto I M u v k == nc_stat_sel auto (remove_nth k I) M u v.
+Proof.
+  intros Hk. unfold nc_sample_sel, nc_sample, nc_stat_sel.
+  etransitivity.
+  - apply (normalised_sample_is_recount (length I)); [apply msel_square | apply length_vsel | apply length_vsel | exact Hk].
+  - rewrite del_msel, !remove_nth_vsel. reflexivity.
+Qed.
+
+(* a selection of a selection is the selection by the composed index list *)
+Lemma nth_map_lt {A B} (f : A -> B) l d d' j : (j < length l)%nat -> nth j (map f l) d' = f (nth j l d).
+Proof.
+  intros Hj. rewrite (nth_indep _ d' (f d)) by (rewrite map_length; exact Hj). apply map_nth.
+Qed.
+
+Lemma vsel_vsel I J u : Forall (fun j => (j < length I)%nat) J -> vsel J (vsel I u) = vsel (isel I J) u.
+Proof.
+  intros H. unfold vsel at 1 3. unfold isel. rewrite map_map. apply map_ext_in. intros j Hj.
+  rewrite Forall_forall in H. unfold vsel. apply (nth_map_lt (fun i => nth i u 0) I 0%nat). apply H. exact Hj.
+Qed.
+
+Theorem msel_msel I J (M : mat) :
+  Forall (fun j => (j < length I)%nat) J -> msel J (msel I M) = msel (isel I J) M.
+Proof.
+  intros H. unfold msel at 1 3. unfold isel at 2. rewrite map_map. apply map_ext_in. intros j Hj.
+  assert (Hlt : (j < length I)%nat) by (rewrite Forall_forall in H; apply H; exact Hj).
+  unfold msel. rewrite (nth_map_lt (fun i => vsel I (nth i M [])) I 0%nat [] j Hlt).
+  apply vsel_vsel. exact H.
+Qed.
+
+(* selecting the pair counts by the ascending patch ids and the sums of weights by the caller's
+   index list: the totals agree (the same patches), the jackknife samples are not the statistic
+   without the k-th selected patch *)
+Theorem nc_sample_sel_mixed_refuted :
+  exists auto I (M : mat) u v k, (k < length I)%nat /\
+    total (msel (sort_nat I) M) == total (msel I M) /\
+    ~ nc_sample_sel_mixed auto I M u v k == nc_stat_sel auto (remove_nth k I) M u v.
+Proof.
+  exists false, [1%nat; 0%nat], [[1; 2]; [3; 4]], [1; 2], [1; 1], 0%nat.
+  split; [simpl; lia|]. split; [reflexivity|]. vm_compute. discriminate.
+Qed.
+
+(* repeated application, all bins, counts and both sums of weights *)
+Theorem derive_patches_twice I J (a : arrs) :
+  Forall (fun j => (j < length I)%nat) J ->
+  derive [D_patches I; D_patches J] a = derive [D_patches (isel I J)] a.
+Proof.
+  intros H. destruct a as [[C U] V]. unfold derive. simpl. rewrite !map_map.
+  f_equal; [f_equal|]; apply map_ext; intros x; [apply msel_msel | apply vsel_vsel | apply vsel_vsel]; exact H.
+Qed.
